@@ -1,3 +1,23 @@
 # Table of claimed / not-claimed properties. Executed by gen_manifest.py.
+PENDING = "check under construction in this session (static-analysis rules for this property are not built yet); see DESIGN.md §4 for the planned clause"
+
+claim("C01",
+      "Necessary structural conditions of the round trip, decided for all types at once: every RegisterCodec row attaches a codec to a Go type whose size/identity equals the memory type the codec's methods reinterpret ptr as (T.reg/T.mem, type parameters substituted along embedding paths), every reflect.Kind clause maps named types to the basic type of the same kind, every Omit is a pure zero test, the slice wrapper is selected by element wire type as documented. These are the type-level mistakes that corrupt a round trip only for types the fuzz tests never build; value-level equality is not decided.",
+      "table/exhaustiveness analysis over the type-checked AST (go/types): registration rows, kind switch, Omit truth-set, wrapper selection")
+claim("C04",
+      "For every function of the decode closure: each input-controlled slice/index/stdlib-precondition is proved in range, each input-sized allocation proved 0<=size<=len(data), each loop proved to make progress bounded by the input length, and each reader proved to meet err==nil => 0<=n<=len(data) - for all byte strings and all target types at once, because target types only select which Read implementations compose and each is proved against the interface contract. Decides panics/out-of-range/hang/allocation on the enumerated constructs (not stack depth, not nil dereference).",
+      "SSA abstract interpretation with linear-inequality facts (dominating guards, callee contracts, Houdini loop invariants, inferred helper pre/post-conditions), entailment by Fourier-Motzkin inside the analyser")
+claim("C06",
+      "Decides the buffer-prefix/append-only/purity clauses for the whole encode closure: the []byte parameter is never resliced or indexed, every returned buffer is that parameter extended by appends (Marshal: or a fresh buffer under data == nil), encoders store only to their own locals, and no clock/randomness/pool/shared table/mutable global is consulted while encoding. By-value vs by-pointer equivalence is a runtime ABI fact and is not decided.",
+      "SSA effect analysis: buffer-derivation dataflow (append-only), pointer-root tracing of every Store, who-may-call rules for nondeterministic sources")
+claim("C07",
+      "Decides data-race freedom of the enumerated shared state for all interleavings: no Store/map update in the API closure targets codec receiver state or a package-level variable; fields published via sync/atomic are accessed only via sync/atomic; atomically loaded maps are never updated and atomically stored maps are fresh (copy-on-write); sync.Map/Pool/Mutex fields are used only through their methods; nothing referring to a struct codec under construction is published (overlay registry holds sub-codecs back; no store to the codec is reachable from the flush).",
+      "SSA ownership/effect analysis (pointer roots, who-may-access field rules, CFG reachability between publication and construction writes)")
+claim("C11",
+      "Decides the aliasing statement structurally for the whole closure: forward alias-taint from every input-bytes parameter proves nothing sharing memory with the input is stored into the target, codec state, a map, a shared table/pool or returned, and nothing writes into the input; on the encode side every Store targets the encoder's own locals and the output buffer is only appended to.",
+      "interprocedural SSA alias-taint analysis (copy conversions kill, slicing/unsafe casts/uintptr arithmetic propagate) + pointer-root tracing of stores")
+
 for _i in range(1, 21):
-    na("C%02d" % _i, "check under construction in this session (static-analysis rules for this property are not built yet); see DESIGN.md §4 for the planned clause")
+    _id = "C%02d" % _i
+    if _id not in CLAIMS:
+        na(_id, PENDING)
